@@ -1,3 +1,4 @@
+import DcmVerif.Props.Source_dicts
 import DcmVerif.Props.Source_classes
 import DcmVerif.Props.Source_simplify
 import DcmVerif.Props.Source_shapes
